@@ -94,69 +94,132 @@ pub(crate) fn c16_slice<S: Shape>() {
     std::mem::forget(searcher);
 }
 
-/// incremental reader strategy: stop / sink error at every event index
-pub(crate) fn c16_reader<S: Shape>() {
-    let cfg = c16_cfg(false, false);
+/// slice strategy, slow line path, CONCRETE contexts (A,B) = (0,1) and (1,0),
+/// no invert, on longer inputs: a separator ahead of a before-context line
+/// needs four lines (match, gap, context, match).  Hit table, stop index and
+/// stop-vs-error stay symbolic.
+fn c16_slice_fixed<S: Shape>(a: usize, b: usize) {
+    let cfg = Cfg { a, b, invert: false, passthru: false, lnum: kani::any(), stop_nm: false };
     let hit = any_hits::<S>();
     let matcher = PlainMatcher::new::<S>(hit);
     let searcher = build_searcher::<S>(&cfg, false);
     let (full, _) = model_events::<S>(&hit, &cfg);
-    // concrete fragmentation (capacity 1, 1-byte reads: a roll at every byte);
-    // symbolic fragmentation does not terminate here (DESIGN.md 7.1)
-    let mut lb = LineBufferBuilder::new()
-        .capacity(1)
-        .line_terminator(term_of::<S>().as_byte())
-        .build();
     let mut sink = RecSink::new(S::HAY);
     let (k, fail) = arm(&mut sink, evcap::<S>());
-    let r = {
-        let fr = FragReader { hay: S::HAY, pos: 0, calls: 0, chunk: [1; MAXREADS], err_at: usize::MAX, err_interrupted: false };
-        let rdr = LineBufferReader::new(fr, &mut lb);
-        ReadByLine::new(&searcher, &matcher, rdr, &mut sink).run()
-    };
+    let r = SliceByLine::new(&searcher, &matcher, S::HAY, &mut sink).run();
     check_interrupted::<S>(&sink, &full, r.is_err(), k, fail);
     kani::cover!(k + 2 < full.n && !fail, "reach-end");
     std::mem::forget(searcher);
-    std::mem::forget(lb);
+}
+pub(crate) fn c16_slice_before1<S: Shape>() {
+    c16_slice_fixed::<S>(0, 1)
+}
+pub(crate) fn c16_slice_after1<S: Shape>() {
+    c16_slice_fixed::<S>(1, 0)
+}
+
+/// incremental reader strategy: stop / sink error at every event index.
+/// Hit pattern, contexts, invert, the stop index and stop-vs-error are
+/// enumerated in-harness (see reader_enum in core.rs for why); line numbering
+/// symbolic.  The expected stream is the grep model's, to which the
+/// uninterrupted reader run is held equal by c02_reader_*.
+fn c16_reader_enum<S: Shape>(fail: bool, abs: &[(usize, usize)], invs: &[bool]) {
+    let lnum: bool = kani::any();
+    let mut interrupted_mid = false;
+    for &(a, b) in abs {
+        for &inv in invs {
+            let cfg = Cfg { a, b, invert: inv, passthru: false, lnum, stop_nm: false };
+            let searcher = build_searcher::<S>(&cfg, false);
+            let mut lb = LineBufferBuilder::new()
+                .capacity(1)
+                .line_terminator(term_of::<S>().as_byte())
+                .build();
+            let mut pat = 0;
+            while pat < (1usize << S::NL) {
+                if let Some(matcher) = plain_from_bits::<S>(pat) {
+                    let (full, _) = model_events::<S>(&matcher.hit, &cfg);
+                    let mut k = 0;
+                    while k < evcap::<S>() {
+                        if k < full.n {
+                            let mut sink = RecSink::new(S::HAY);
+                            sink.ctl = true;
+                            if fail {
+                                sink.fail_at = k;
+                            } else {
+                                sink.stop_at = k;
+                            }
+                            let r = {
+                                let fr = FragReader { hay: S::HAY, pos: 0, calls: 0, chunk: [1; MAXREADS], err_at: usize::MAX, err_interrupted: false };
+                                let rdr = LineBufferReader::new(fr, &mut lb);
+                                ReadByLine::new(&searcher, &matcher, rdr, &mut sink).run()
+                            };
+                            check_interrupted::<S>(&sink, &full, r.is_err(), k, fail);
+                            if k + 2 < full.n {
+                                interrupted_mid = true;
+                            }
+                        }
+                        k += 1;
+                    }
+                }
+                pat += 1;
+            }
+            std::mem::forget(lb);
+            std::mem::forget(searcher);
+        }
+    }
+    kani::cover!(interrupted_mid, "reach-end");
+}
+pub(crate) fn c16_reader_stop<S: Shape>() {
+    c16_reader_enum::<S>(false, &[(0, 0), (1, 1)], &[false, true])
+}
+pub(crate) fn c16_reader_error<S: Shape>() {
+    c16_reader_enum::<S>(true, &[(0, 0), (1, 1)], &[false, true])
 }
 
 /// incremental reader: the source fails (Other or Interrupted) at read j:
 /// the error is returned, nothing is delivered afterwards, no finish, and what
-/// was delivered is a prefix of the full stream.
+/// was delivered is a prefix of the full stream.  Enumerated as above; j and
+/// the error kind are enumerated too.
 pub(crate) fn c16_reader_ioerr<S: Shape>() {
-    let cfg = c16_cfg(false, false);
-    let hit = any_hits::<S>();
-    let matcher = PlainMatcher::new::<S>(hit);
-    let searcher = build_searcher::<S>(&cfg, false);
-    let (full, _) = model_events::<S>(&hit, &cfg);
-    // concrete fragmentation (capacity 1, 1-byte reads: a roll at every byte);
-    // symbolic fragmentation does not terminate here (DESIGN.md 7.1)
-    let mut lb = LineBufferBuilder::new()
-        .capacity(1)
-        .line_terminator(term_of::<S>().as_byte())
-        .build();
-    let mut sink = RecSink::new(S::HAY);
-    let mut frag = FragReader { hay: S::HAY, pos: 0, calls: 0, chunk: [1; MAXREADS], err_at: usize::MAX, err_interrupted: false };
-    let j: usize = kani::any();
-    kani::assume(j < MAXREADS);
-    frag.err_at = j;
-    frag.err_interrupted = kani::any();
-    let r = {
-        let rdr = LineBufferReader::new(&mut frag, &mut lb);
-        ReadByLine::new(&searcher, &matcher, rdr, &mut sink).run()
-    };
-    if frag.calls > j {
-        // the failing read was issued
-        assert!(r.is_err(), "the source's error is returned to the caller");
-        assert!(sink.n >= 1 && sink.n < full.n, "strict prefix, no finish");
-        assert!(sink.ev[sink.n - 1].kind != K_FINISH, "finish is not signalled after an error");
-        assert_prefix::<S>(&sink, &full, sink.n - 1);
-    } else {
-        assert!(r.is_ok(), "uninterrupted search returns Ok");
-        assert!(sink.n == full.n, "full stream");
-        assert_prefix::<S>(&sink, &full, full.n);
+    let lnum: bool = kani::any();
+    let mut cut_mid = false;
+    for &(a, b) in &[(0usize, 0usize), (1, 1)] {
+        let cfg = Cfg { a, b, invert: false, passthru: false, lnum, stop_nm: false };
+        let searcher = build_searcher::<S>(&cfg, false);
+        let mut lb = LineBufferBuilder::new()
+            .capacity(1)
+            .line_terminator(term_of::<S>().as_byte())
+            .build();
+        let mut pat = 0;
+        while pat < (1usize << S::NL) {
+            if let Some(matcher) = plain_from_bits::<S>(pat) {
+                let (full, _) = model_events::<S>(&matcher.hit, &cfg);
+                let mut j = 0;
+                // 1-byte reads: reads 0..len-1 return data, read len returns EOF
+                while j <= S::HAY.len() {
+                    for &intr in &[false, true] {
+                        let mut sink = RecSink::new(S::HAY);
+                        let mut frag = FragReader { hay: S::HAY, pos: 0, calls: 0, chunk: [1; MAXREADS], err_at: j, err_interrupted: intr };
+                        let r = {
+                            let rdr = LineBufferReader::new(&mut frag, &mut lb);
+                            ReadByLine::new(&searcher, &matcher, rdr, &mut sink).run()
+                        };
+                        assert!(frag.calls > j, "the failing read was issued");
+                        assert!(r.is_err(), "the source's error is returned to the caller");
+                        assert!(sink.n >= 1 && sink.n < full.n, "strict prefix, no finish");
+                        assert!(sink.ev[sink.n - 1].kind != K_FINISH, "finish is not signalled after an error");
+                        assert_prefix::<S>(&sink, &full, sink.n - 1);
+                        if sink.n >= 2 {
+                            cut_mid = true;
+                        }
+                    }
+                    j += 1;
+                }
+            }
+            pat += 1;
+        }
+        std::mem::forget(lb);
+        std::mem::forget(searcher);
     }
-    kani::cover!(frag.calls > j && sink.n >= 2, "reach-end");
-    std::mem::forget(searcher);
-    std::mem::forget(lb);
+    kani::cover!(cut_mid, "reach-end");
 }
